@@ -357,6 +357,50 @@ func TestVerifC17Conns(t *testing.T) {
 		}(ci)
 	}
 	wg.Wait()
+	// obfs4 is the one transport that itself does I/O on the client connection during classification: after a valid
+	// client handshake the station writes its reply.  That write fails in every error shape, with nothing or a few bytes
+	// taken (the client or a prober reset before the reply went out).  Whatever the transport and the handler do with
+	// the error, the client address must not be printed.  Transport errors make the handler wait out its deadline in
+	// real time, so these run in parallel too.
+	fmt.Fprintf(os.Stdout, "VERIFCASE %d\n", 9000002)
+	rec.Ev("case", map[string]interface{}{"n": 9000002, "desc": "parallel batch: obfs4 server-handshake reply write fails (every error shape × 0 or 5 bytes taken × client families), LOG_CLIENT_IP=" + c17Spell(9000002)})
+	var owg sync.WaitGroup
+	oi := 0
+	for ci := range c17Clients {
+		ph := net.IPv4(192, 122, 190, byte(40+ci)).To4()
+		sp := vRegSpec{Secret: vSecret(rng), TT: pb.TransportType_Obfs4, Params: &pb.GenericTransportParams{RandomizeDstPort: boolp(false)}, LibVer: 4, Phantom: ph, Covert: w.covert.Addr().String(),
+			Client: net.ParseIP("203.0.113.77").To4()}
+		if _, err := w.s.vAdmit(sp); err != nil {
+			rec.Note("obfs4 registration refused: " + err.Error())
+			continue
+		}
+		for _, sh := range shapeList {
+			for _, taken := range []int{0, 5} {
+				fl, err := w.s.vFlight(sp) // a fresh client handshake each time (obfs4 refuses replays)
+				if err != nil {
+					continue
+				}
+				oi++
+				owg.Add(1)
+				go func(ci, oi, taken int, sh c17Shape, fl []byte) {
+					defer owg.Done()
+					local := kit.TCPAddr(ph.String(), 443)
+					remote := &net.TCPAddr{IP: net.ParseIP(c17Clients[ci].ip), Port: 46000 + oi}
+					conn := kit.NewScriptConn("c17o4", local, remote, []kit.Seg{{Data: fl}}, kit.EndVirtualTimeout)
+					conn.WScript = map[int]kit.WStep{0: {Accept: taken, Err: sh.mk("write", local, remote)}}
+					conn.MaxBlock = 60 * time.Second
+					w.s.vHandle(conn, ph)
+					rec.Count("evaluations", 1)
+					if conn.State().Writes > 0 {
+						rec.Count("obfs4_reply_writes_failed", 1)
+					}
+					rec.Distinct("nontrivial", c17Clients[ci].name, "obfs4-reply-write", taken, sh.name)
+					rec.Distinct("sites", "found-obfs4", "obfs4-reply-write")
+				}(ci, oi, taken, sh, fl)
+			}
+		}
+	}
+	owg.Wait()
 	// the connection-statistics module, as the station prints it periodically
 	fmt.Fprintf(os.Stdout, "VERIFCASE %d\n", 9000001)
 	rec.Ev("case", map[string]interface{}{"n": 9000001, "desc": "periodic statistics: connManager.PrintAndReset, ProxyStats, RegistrationManager"})
